@@ -4,8 +4,11 @@ import VM.Cache
     call / executor run / setup / fork (deep copy) / restart-from-cache.
 
     H <id> <n>
-    N <setup 0|1> <failx 0|1> <usearg 0|1> <retnone 0|1> <pred>*   node i returns ("n<i>", *args) or None; args = values of
-                                                           preds (+ x, y when usearg); failx: raises when x == 13
+    N <setup 0|1> <failx 0|1> <usearg 0|1> <retnone 0|1> <flag j|-> <pred>*
+                                                           node i returns ("n<i>", *args) or None; args = values of
+                                                           preds (+ x, y when usearg); failx: raises when x == 13;
+                                                           flag: twz_active = whole result of node j;
+                                                           pred ::= <j> | <j>~ | <j>~k   (~ : used as v[-2][0];  ~k : used as v[-2]["k"])
     O <inst> call <k> <sel>^k <na> <value>^na             DAG call / executor run over selection `sel`
     O <inst> setup <k> <sel>^k
     O <inst> peek <k> <sel>^k <na> <value>^na             like call, instance unchanged
@@ -25,24 +28,37 @@ partial def pVal : Toks → Option (Val × Toks)
   | "I" :: n :: r => n.toInt?.map fun i => (.int i, r)
   | "S" :: w :: r => some (.str (if w == "\"\"" then "" else w), r)
   | "(" :: k :: r => do let (l, r') ← pVals k.toNat! r; pure (.tuple l, r')
+  | "{" :: k :: r => do let (l, r') ← pKVs k.toNat! r; pure (.dict l, r')
   | _ => none
 where
   pVals : Nat → Toks → Option (List Val × Toks)
     | 0, r => some ([], r)
     | n+1, r => do let (v, r1) ← pVal r; let (vs, r2) ← pVals n r1; pure (v :: vs, r2)
+  pKVs : Nat → Toks → Option (List (String × Val) × Toks)
+    | 0, r => some ([], r)
+    | n+1, k :: r => do let (v, r1) ← pVal r; let (vs, r2) ← pKVs n r1; pure ((k, v) :: vs, r2)
+    | _, _ => none
 
 structure NSpec where
   setup : Bool
   failx : Bool
   usearg : Bool
   retNone : Bool        -- the function returns None (a legitimate result, e.g. a side-effect-only setup node)
-  preds : List Nat
+  flag : Option Nat     -- producer of the activation flag (whole result)
+  preds : List (Nat × Option Key)   -- predecessor, and (if any) the key k of a use  v[-2][k]
+
+def parsePred (w : String) : Option (Nat × Option Key) :=
+  match w.splitOn "~" with
+  | [j] => j.toNat?.map (fun n => (n, none))
+  | [j, ""] => j.toNat?.map (fun n => (n, some (Key.idx 0)))
+  | [j, k] => j.toNat?.map (fun n => (n, some (Key.name k)))
+  | _ => none
 
 def mkInterp (specs : Array NSpec) : Interp Val := fun f args _ =>
   match f.toNat? with
   | none => .error .usage
   | some i =>
-    let sp := specs.getD i ⟨false, false, false, false, []⟩
+    let sp := specs.getD i ⟨false, false, false, false, none, []⟩
     let x := if sp.usearg then args.getD (args.length - 2) .none else .none
     if sp.failx && sp.usearg && Val.beq x (.int 13) then .error (.node i)
     else if sp.retNone then .ok .none
@@ -52,11 +68,12 @@ def mkDag (specs : Array NSpec) : Dag Val :=
   let n := specs.size
   { nodes := List.range n,
     recOf := fun i =>
-      let sp := specs.getD i ⟨false, false, false, false, []⟩
+      let sp := specs.getD i ⟨false, false, false, false, none, []⟩
       { fn := toString i,
-        args := sp.preds.map (fun p => (⟨p, []⟩ : Ref)) ++ (if sp.usearg then [⟨n, []⟩, ⟨n + 1, []⟩] else []),
-        kwargs := [], active := none },
-    isSetup := fun i => (specs.getD i ⟨false, false, false, false, []⟩).setup,
+        args := sp.preds.map (fun p => (⟨p.1, match p.2 with | some k => [Key.idx (-2), k] | none => []⟩ : Ref))
+                ++ (if sp.usearg then [⟨n, []⟩, ⟨n + 1, []⟩] else []),
+        kwargs := [], active := sp.flag.map (fun j => (⟨j, []⟩ : Ref)) },
+    isSetup := fun i => (specs.getD i ⟨false, false, false, false, none, []⟩).setup,
     interp := mkInterp specs,
     params := [n, n + 1] }
 
@@ -86,8 +103,8 @@ def main : IO Unit := do
       let mut specs : Array NSpec := #[]
       for j in [0:n] do
         match toks (lines[i + 1 + j]!) with
-        | "N" :: su :: fx :: ua :: rn :: ps =>
-          specs := specs.push ⟨su == "1", fx == "1", ua == "1", rn == "1", ps.filterMap String.toNat?⟩
+        | "N" :: su :: fx :: ua :: rn :: fl :: ps =>
+          specs := specs.push ⟨su == "1", fx == "1", ua == "1", rn == "1", fl.toNat?, ps.filterMap parsePred⟩
         | _ => pure ()
       let dag := mkDag specs
       let res0 : Results Val := fun x => if x = n + 1 then some (.int 7) else none
